@@ -189,7 +189,7 @@ static int table_bfs(int maxlive)
         t = hrebuild(h, n, &r);
         hhist_text(h, n, cur_hist, sizeof cur_hist);
         hout_progress("sig=table/readonly hash_bfs table %d --replay %s", maxlive, cur_hist);
-        if (hcanon(t, cb, sizeof cb) || strcmp(cb, hst[s].canon)) { fprintf(stderr, "canon-on-replay mismatch\n"); return 2; }
+        if (hcanon(t, cb, sizeof cb) || strcmp(cb, hst[s].canon)) { viol("table/state-not-determined-by-history", "the same operation sequence run a second time left different chains: %s instead of %s", cb, hst[s].canon); return 1; }
         canon_checks++;
         fail_flag = 0; hvalidate(t, &r);
         p_hash_table_free(t);
